@@ -79,17 +79,20 @@ Definition mon_apply (g : ghost) (q : nat) (ip : addr) (now : tv) (tcp : bool) (
      v1 ++ v2)
   end.
 
+(* an otherwise valid response that lacks a server cookie *)
+Definition mon_nocookie (g' : ghost) (now : tv) (dropped : bool) (rq : option (Z * Z)) : ghost * list vkind :=
+  if g_sup g'
+  then (mkG (g_last g') (g_ip g') (g_since g') (g_reset_ok g') (g_server g') true
+            (match g_nocookie g' with None => Some now | s => s end) (g_req g') (g_bad g'),
+        if dropped && is_none rq then [] else [V_supported_accepts])
+  else (mkG (g_last g') (g_ip g') (g_since g') true (g_server g') false (g_nocookie g') (g_req g') (g_bad g'),
+        if dropped then [V_unsup_dropped] else []).
+
 Definition mon_validate (g : ghost) (q : nat) (rc0 : option (list Z)) (rcode : Z) (now : tv)
            (st : Z) (rq : option (Z * Z)) (try : Z) (utcp : bool) : ghost * list vkind :=
   let rc := norm_cookie rc0 in
   let dropped := negb (st =? ARES_SUCCESS) in
-  let with_nocookie g' :=      (* an otherwise valid response that lacks a server cookie *)
-    if g_sup g'
-    then (mkG (g_last g') (g_ip g') (g_since g') (g_reset_ok g') (g_server g') true
-              (match g_nocookie g' with None => Some now | s => s end) (g_req g') (g_bad g'),
-          if dropped && is_none rq then [] else [V_supported_accepts])
-    else (mkG (g_last g') (g_ip g') (g_since g') true (g_server g') false (g_nocookie g') (g_req g') (g_bad g'),
-          if dropped then [V_unsup_dropped] else []) in
+  let with_nocookie g' := mon_nocookie g' now dropped rq in
   match cookie_of (g_req g q) with
   | None =>
     (* request carried no cookie: a cookie-less response must be usable *)
@@ -144,4 +147,21 @@ Fixpoint run (s : sys) (g : ghost) (evs : list event) : outcome (list vkind) :=
     let '(g', v) := mon_step g e o in
     do vs <- run s' g' rest;
     Ok (v ++ vs)
+  end.
+
+(* the same, separated: what the model does, and what the monitor says about any trace *)
+Fixpoint exec (s : sys) (evs : list event) : outcome (list obs) :=
+  match evs with
+  | [] => Ok []
+  | e :: rest =>
+    do so <- sys_step s e;
+    let '(s', o) := so in
+    do os <- exec s' rest;
+    Ok (o :: os)
+  end.
+
+Fixpoint judge (g : ghost) (evs : list event) (os : list obs) : list vkind :=
+  match evs, os with
+  | e :: rest, o :: os' => let '(g', v) := mon_step g e o in v ++ judge g' rest os'
+  | _, _ => []
   end.
